@@ -5,6 +5,8 @@ from contracts import concurrent_exception as _ce   # noqa: F401
 
 NS = ["Notification", "Interrupt.parked_or_scheduled"]
 DEAD_NEW = "forall_new(Interrupt, lambda i: i.sub is None and (i._revoked or not i.scheduled))"
+default_scope(NS + ["Task", "Done", "NotDone", "coroutine", "Scope", "Condition", "Flag", "InverseFlag", "CancelTask"])
+
 
 model("Concurrent", module="usim._primitives.concurrent_exception",
       fields={"children": LIST(ANY), "__cause__": OPT(ANY), "__context__": OPT(ANY)})
@@ -98,3 +100,69 @@ contract("usim._primitives.context.Scope._propagate_exceptions",
              "implies(not %s and not %s, kept_count(self._child_failures, len(self._child_failures)) == 0)" % (PRIV_T, OWN)],
          modifies=["Concurrent.children", "Concurrent.__cause__"], no_invariants=True,
          props=["C05"])
+
+# ---------------------------------------------------------------- scope state (DESIGN Appendix F)
+from pyvc.dsl import REG
+REG.models["Scope"].elem_hooks["_children"] = {"pos": "Task.cpos", "component": None, "owner": "Task.parent"}
+REG.models["Scope"].elem_hooks["_volatile_children"] = {"pos": "Task.vpos", "component": None, "owner": "Task.parent"}
+
+invariant("Scope", "children_wf",
+          "forall(int, lambda k: implies(0 <= k and k < len(self._children), self._children[k] is not None and "
+          "  self._children[k].parent is self and not self._children[k].__volatile__ and not self._children[k].reported "
+          "  and self._children[k].linked and self._children[k].cpos == k))", props=["C04", "C03"])
+invariant("Scope", "volatile_wf",
+          "forall(int, lambda k: implies(0 <= k and k < len(self._volatile_children), self._volatile_children[k] is not None and "
+          "  self._volatile_children[k].parent is self and self._volatile_children[k].__volatile__ and not self._volatile_children[k].reported "
+          "  and self._volatile_children[k].linked and self._volatile_children[k].vpos == k))", props=["C04", "C03"])
+invariant("Task", "in_parent_list",
+          "implies(self.linked and not self.reported, "
+          "  ite(self.__volatile__, 0 <= self.vpos and self.vpos < len(self.parent._volatile_children) and self.parent._volatile_children[self.vpos] is self, "
+          "      0 <= self.cpos and self.cpos < len(self.parent._children) and self.parent._children[self.cpos] is self))", props=["C04", "C03"])
+invariant("Task", "reported_is_linked", "implies(self.reported, self.linked)", props=["C04"])
+invariant("Scope", "wellformed",
+          "self._body_done is not None and self._cancel_self is not None and self._cancel_self.subject is self "
+          "and self._cancel_self.sub is None "
+          "and implies(len(self._children) + len(self._volatile_children) > 0, self._activity is not None)", props=["C04", "C05", "C03"])
+# S2: once the scope has shut down its own cancel signal is dead (C03a) ...
+invariant("Scope", "closed_is_deaf", "implies(not self._interruptable, self._cancel_self._revoked)", props=["C03", "C04"])
+# ... and while it is open a scheduled cancel signal is addressed to the owning activity
+invariant("Scope", "cancel_goes_to_owner",
+          "implies(self._cancel_self.scheduled, self._activity is not None and self._cancel_self.target is self._activity)", props=["C03", "C05"])
+
+contract("usim._primitives.context.Scope.__cancel__", allocates=False,
+         params={"self": REF("Scope")},
+         requires=["implies(self._interruptable, self._activity is not None)", "self._cancel_self is not None"],
+         ensures=["implies(old(self._interruptable), loop._pending == old(loop._pending) + [Activation(self._activity, self._cancel_self)] "
+                  "        and self._cancel_self.scheduled and self._cancel_self.due == loop.time)",
+                  "implies(not old(self._interruptable), loop._pending == old(loop._pending) and self._cancel_self.scheduled == old(self._cancel_self.scheduled))"],
+         modifies=["Loop._pending@loop", "Interrupt.scheduled@self._cancel_self", "Interrupt.target@self._cancel_self", "Interrupt.due@self._cancel_self"],
+         inline=True, no_invariants=True,
+         props=["C05", "C03"])
+
+contract("usim._primitives.context.Scope.__child_finished__", allocates=False,
+         params={"self": REF("Scope"), "child": REF("Task"), "failed": BOOL},
+         requires=["child.parent is self", "child.linked and not child.reported",
+                   "implies(failed, child._result is not None and child._result[1] is not None)"],
+         asserts={1: "internal", 2: "usage"},
+         ensures=[
+             # failures are recorded once, in order of occurrence, and abort the scope in the same step (C05)
+             "implies(failed, self._child_failures == old(self._child_failures) + [child._result[1]])",
+             "implies(not failed, self._child_failures == old(self._child_failures) and loop._pending == old(loop._pending))",
+             "implies(failed and old(self._interruptable), loop._pending == old(loop._pending) + [Activation(self._activity, self._cancel_self)] "
+             "        and self._cancel_self.scheduled)",
+             "implies(failed and not old(self._interruptable), loop._pending == old(loop._pending))",
+             # exactly this child leaves its list; everything else stays where it is (C04, C06: siblings untouched)
+             "implies(child.__volatile__, self._children == old(self._children) and "
+             "   exists(int, lambda k: 0 <= k and k < len(old(self._volatile_children)) and old(self._volatile_children)[k] is child and "
+             "          self._volatile_children == old(self._volatile_children)[:k] + old(self._volatile_children)[k + 1:]))",
+             "implies(not child.__volatile__, self._volatile_children == old(self._volatile_children) and "
+             "   exists(int, lambda k: 0 <= k and k < len(old(self._children)) and old(self._children)[k] is child and "
+             "          self._children == old(self._children)[:k] + old(self._children)[k + 1:]))",
+             "child.reported"],
+         ghost_exit=["child.reported = True"],
+         modifies=["Scope._child_failures@self", "Scope._children@self", "Scope._volatile_children@self", "Loop._pending@loop",
+                   "Interrupt.scheduled@self._cancel_self", "Interrupt.target@self._cancel_self", "Interrupt.due@self._cancel_self",
+                   "Task.reported@child", "Task.cpos", "Task.vpos"],
+         inv_scope=NS + ["Scope", "Task.in_parent_list", "Task.reported_is_linked"],
+         note="called from the task wrapper's tail: the Task invariants about `reported` are re-established by the wrapper before it ends",
+         props=["C04", "C05", "C06", "C03"])
